@@ -266,6 +266,7 @@ vp_arc_make_mut(
             res is Ok ==> exists|v: HeaderValue| hv_bytes(&v) == into_hv_bytes(value) // id: session_set_replaces [C16]
                 && hm_view(&final(self).headers) == without(hm_view(&old(self).headers), key_view(header)).push((key_view(header), v)),
             res is Err ==> hm_view(&final(self).headers) == hm_view(&old(self).headers),
+            res is Ok <==> into_hv_ok(value),
             **final(self) == (BaseSettings { headers: final(self).headers, ..**old(self) }), // id: nothing_but_headers_changes [C16]
 //@@ end
 //@@ fn src/request/settings.rs impl~BaseSettings try_header_append props=C16
@@ -274,6 +275,7 @@ vp_arc_make_mut(
             res is Ok ==> exists|v: HeaderValue| hv_bytes(&v) == into_hv_bytes(value) // id: session_append_adds [C16]
                 && hm_view(&final(self).headers) == hm_view(&old(self).headers).push((key_view(header), v)),
             res is Err ==> hm_view(&final(self).headers) == hm_view(&old(self).headers),
+            res is Ok <==> into_hv_ok(value),
             **final(self) == (BaseSettings { headers: final(self).headers, ..**old(self) }), // id: nothing_but_headers_changes [C16]
 //@@ end
 }
@@ -283,6 +285,7 @@ impl Session {
         ensures
             res is Ok ==> exists|v: HeaderValue| hv_bytes(&v) == into_hv_bytes(value) // id: session_set_replaces [C16]
                 && hm_view(&final(self)@.headers) == without(hm_view(&old(self)@.headers), key_view(header)).push((key_view(header), v)),
+            res is Ok <==> into_hv_ok(value),
             final(self)@ == (BaseSettings { headers: final(self)@.headers, ..old(self)@ }), // id: nothing_but_headers_changes [C16]
 //@@ end
 //@@ fn src/request/session.rs impl~Session try_header_append props=C16
@@ -290,6 +293,7 @@ impl Session {
         ensures
             res is Ok ==> exists|v: HeaderValue| hv_bytes(&v) == into_hv_bytes(value) // id: session_append_adds [C16]
                 && hm_view(&final(self)@.headers) == hm_view(&old(self)@.headers).push((key_view(header), v)),
+            res is Ok <==> into_hv_ok(value),
             final(self)@ == (BaseSettings { headers: final(self)@.headers, ..old(self)@ }), // id: nothing_but_headers_changes [C16]
 //@@ end
 }
@@ -300,6 +304,7 @@ impl<B> RequestBuilder<B> {
             res matches Ok(r) ==> r.sp_settings() == self.sp_settings() && r.sp_url() == self.sp_url() && r.sp_method() == self.sp_method() && r.sp_body() == self.sp_body() // id: request_header_set_touches_only_this_requests_headers [C16]
                 && exists|v: HeaderValue| hv_bytes(&v) == into_hv_bytes(value)
                     && hm_view(&r.sp_headers()) == without(hm_view(&self.sp_headers()), key_view(header)).push((key_view(header), v)),
+            res is Ok <==> into_hv_ok(value),
 //@@ end
 //@@ fn src/request/builder.rs impl<B>~RequestBuilder<B> try_header_append props=C16
 //@@ contract
@@ -307,6 +312,7 @@ impl<B> RequestBuilder<B> {
             res matches Ok(r) ==> r.sp_settings() == self.sp_settings() && r.sp_url() == self.sp_url() && r.sp_method() == self.sp_method() && r.sp_body() == self.sp_body() // id: request_header_append_touches_only_this_requests_headers [C16]
                 && exists|v: HeaderValue| hv_bytes(&v) == into_hv_bytes(value)
                     && hm_view(&r.sp_headers()) == hm_view(&self.sp_headers()).push((key_view(header), v)),
+            res is Ok <==> into_hv_ok(value),
 //@@ end
 }
 impl RequestBuilder {
@@ -358,6 +364,40 @@ BaseSettings::default_impl()
         requires url_parse_spec(as_ref_str_spec(base_url)) is Some, method_bytes(&method) != connect_bytes(),   // documented: panics otherwise
         ensures res.sp_method() == method && url_parse_spec(as_ref_str_spec(base_url)) == Some(res.sp_url())
             && !res.sp_settings().accept_invalid_certs && !res.sp_settings().accept_invalid_hostnames && hm_view(&res.sp_headers()).len() == 0,
+//@@ end
+}
+impl Session {
+//@@ fn src/request/session.rs impl~Session header props=C16
+//@@ contract
+        requires into_hv_ok(value),   // documented: panics on an invalid value
+        ensures
+            exists|v: HeaderValue| hv_bytes(&v) == into_hv_bytes(value) // id: session_set_replaces [C16]
+                && hm_view(&final(self)@.headers) == without(hm_view(&old(self)@.headers), key_view(header)).push((key_view(header), v)),
+            final(self)@ == (BaseSettings { headers: final(self)@.headers, ..old(self)@ }), // id: nothing_but_headers_changes [C16]
+//@@ end
+//@@ fn src/request/session.rs impl~Session header_append props=C16
+//@@ contract
+        requires into_hv_ok(value),   // documented: panics on an invalid value
+        ensures
+            exists|v: HeaderValue| hv_bytes(&v) == into_hv_bytes(value) // id: session_append_adds [C16]
+                && hm_view(&final(self)@.headers) == hm_view(&old(self)@.headers).push((key_view(header), v)),
+            final(self)@ == (BaseSettings { headers: final(self)@.headers, ..old(self)@ }), // id: nothing_but_headers_changes [C16]
+//@@ end
+}
+impl<B> RequestBuilder<B> {
+//@@ fn src/request/builder.rs impl<B>~RequestBuilder<B> header props=C16,C07
+//@@ contract
+        requires into_hv_ok(value),   // documented: panics on an invalid value
+        ensures res.sp_settings() == self.sp_settings() && res.sp_url() == self.sp_url() && res.sp_method() == self.sp_method() && res.sp_body() == self.sp_body() // id: request_header_set_touches_only_this_requests_headers [C16]
+            && exists|v: HeaderValue| hv_bytes(&v) == into_hv_bytes(value)
+                && hm_view(&res.sp_headers()) == without(hm_view(&self.sp_headers()), key_view(header)).push((key_view(header), v)),
+//@@ end
+//@@ fn src/request/builder.rs impl<B>~RequestBuilder<B> header_append props=C16,C07
+//@@ contract
+        requires into_hv_ok(value),   // documented: panics on an invalid value
+        ensures res.sp_settings() == self.sp_settings() && res.sp_url() == self.sp_url() && res.sp_method() == self.sp_method() && res.sp_body() == self.sp_body() // id: request_header_append_touches_only_this_requests_headers [C16]
+            && exists|v: HeaderValue| hv_bytes(&v) == into_hv_bytes(value)
+                && hm_view(&res.sp_headers()) == hm_view(&self.sp_headers()).push((key_view(header), v)),
 //@@ end
 }
 /// `Method::GET` .. `Method::TRACE` (associated consts of an external type)
